@@ -21,7 +21,8 @@ THEOREMS = ["CKT.C07." + t for t in [
     # T07.2 (Props/C07Conn): wires connected through applied (uncut) gates never number more than W
     "trace_path", "path_trace", "path_all_inv", "trace_edges", "conn_same_root", "connected_wires_le_width"]]
 RULE = ("random circuits on 2-8 qubits with up to 10 instructions (two-qubit gates of every family, Move, one-qubit gates, partial and full "
-        "barriers, occasionally a three-qubit gate), every width limit, all permitted-cut combinations, restricted and unrestricted search "
+        "barriers, occasionally a three-qubit gate; fixed families with Delay instructions around the cut positions and with several quantum "
+        "registers), every width limit, all permitted-cut combinations, restricted and unrestricted search "
         "settings, invalid settings; exact comparison (instruction list, metadata, overhead, flag) on integer-kappa circuits with the seeded "
         "generator's stream replayed in the model; overhead/flag comparison otherwise; distinct by payload")
 ASSUMPTIONS = ["numpy Generator(seed).random() stream is read in Python and passed to the model (the model is a function of that stream)",
@@ -32,6 +33,10 @@ ASSUMPTIONS = ["numpy Generator(seed).random() stream is read in Python and pass
 
 def cases(rng, tier):
     N = 150 if tier == "quick" else 2500
+    # deterministic families (independent of the seed, oracle always run): Delay instructions before / in front of / after the cut positions
+    # (reported positions are positions in the input circuit, delays included), and qubits spread over several quantum registers
+    for p in cutfind.family_delays() + cutfind.family_registers():
+        yield ("find_cuts", p)
     # circuits in which nothing (or only full-width barriers) happens: trivially feasible, nothing to cut
     for nq, instrs in ((3, []), (4, [{"name": "barrier", "qubits": [0, 1, 2, 3]}]), (1, []), (2, [{"name": "barrier", "qubits": [0, 1]}] * 2)):
         yield ("find_cuts", {"nq": nq, "instrs": [dict(i) for i in instrs], "seed": rng.randrange(1 << 30), "max_gamma": 1024.0, "max_backjumps": 10000,
